@@ -478,6 +478,16 @@ pub fn oracle_in(c: &CurveCase, cur: &Result<Curve, String>, out: &mut Out, ctx:
         }
     }
 
+    // hypothesis test for theorem T16d (coq/Proofs/LengthMono.v): outside the osu!-mode Catmull
+    // simplification (zero seed) and with finite vertices in the unadjusted path the cumulative
+    // lengths are non-decreasing EXACTLY (no slack) and never NaN / negative, for every requested
+    // length.  Stricter than the property text, so it is recorded as a statistic, not as a failure
+    // (a non-zero "contradicted" count would mean the model of calculate_length is wrong).
+    if !osu_catmull && npath.iter().all(|p| p.x.is_finite() && p.y.is_finite()) {
+        let exact = lens.windows(2).all(|w| w[1] >= w[0]) && lens.iter().all(|l| !l.is_nan() && !(*l < 0.0));
+        out.count(if exact { "oracle:T16d-exact-monotone-holds" } else { "oracle:T16d-exact-monotone-contradicted" });
+    }
+
     match c.len {
         None => {
             // the distance is the polyline's own length; the osu!-mode Catmull
